@@ -256,27 +256,34 @@ def _t1(ctx: Context) -> None:
                  + (": a binary double keeps only 53 significant bits, integer inputs above 2^53 (uint64) change value before clamping/rounding" if lossy else ""),
                  ctx.loc(f, n))
     # the rounding statement: X = offset + to_integral((v - offset) / step) * step
-    rounding = None
+    # candidates by VALUE: every assignment whose value term contains the integral rounding of a quotient (the formula may be
+    # split over temporaries - `steps = (..).to_integral_value(); x = offset + steps * step` - the term of the last one is whole)
+    cands = []
     for n in cfg.nodes:
         if n.kind == "stmt" and isinstance(n.ast, ast.Assign):
-            own = list(ast.walk(n.ast.value))
             v0 = n.ast.value
             is_final = isinstance(v0, ast.Call) and isinstance(v0.func, ast.Name) and v0.func.id in ("int", "float")
-            if any(isinstance(x, ast.Attribute) and x.attr == "to_integral_value" for x in own) and not is_final:
-                t = strip_sites(T.of(cfg, n, v0))
-                if contains(t, lambda s: s[0] == "binop" and s[1] == "Div") and (rounding is None or n.lineno < rounding[0].lineno):
-                    rounding = (n, t)
-    if rounding is None:
+            if is_final:
+                continue
+            t = strip_sites(T.of(cfg, n, v0))
+            if contains(t, lambda s: s[0] == "call" and s[1][0] == "attr" and s[1][2] == "to_integral_value" and contains(s[1][1], lambda z: z[0] == "binop" and z[1] == "Div")):
+                cands.append((n, t))
+    if not cands:
         ck.unknown("C14.T1", "check_convert_value: the step-rounding statement was not found", f.loc())
         return
-    rn, rt = rounding
     OFF, STEP, V = Cap("off", structural=True), Cap("step", structural=True), Cap("v", structural=True)
     pat = ("add", (OFF, ("binop", "Mult", ("call", ("attr", ("binop", "Div", ("binop", "Sub", V, OFF), STEP), "to_integral_value"), (), ()), STEP)))
-    b = match(pat, rt)
-    if b is None:
-        # commuted product
-        pat2 = ("add", (OFF, ("binop", "Mult", STEP, ("call", ("attr", ("binop", "Div", ("binop", "Sub", V, OFF), STEP), "to_integral_value"), (), ()))))
-        b = match(pat2, rt)
+    pat2 = ("add", (OFF, ("binop", "Mult", STEP, ("call", ("attr", ("binop", "Div", ("binop", "Sub", V, OFF), STEP), "to_integral_value"), (), ()))))  # commuted product
+    rounding = None
+    b = None
+    for n, t in sorted(cands, key=lambda x: x[0].lineno):
+        b = match(pat, t) or match(pat2, t)
+        if b is not None:
+            rounding = (n, t)
+            break
+    if rounding is None:
+        rounding = max(cands, key=lambda x: len(repr(x[1])))
+    rn, rt = rounding
     ck.check("C14.T1", b is not None, "rounded value = offset + to_integral((val - offset) / step) * step (same offset, same step)",
              f"{ctx.fkey(f)}:rounding-formula", f"check_convert_value: rounding formula is {show(rt, 300)}", ctx.loc(f, rn))
     if b is not None:
